@@ -77,12 +77,15 @@ pub fn one_case(tag: &str, id: &str, r: &mut Rng, max_ops: u64, snaps: bool) -> 
                     ops.push(format!("P.{}.{}", w.position as usize + idx, hex(&[v])));
                 } else {
                     // flush
-                    let with_entry = !(opi == 0 && header_first) && published < nslots && buf.len() > dir_end && r.chance(2, 3);
+                    let with_entry = !(opi == 0 && header_first) && published < nslots && buf.len() >= dir_end && r.chance(2, 3);
                     let dirent = if with_entry {
                         // an entry whose extent lies inside the image built so far, after the directory
-                        let lo = r.range(dir_end as u64, buf.len() as u64 - 1);
+                        // (when nothing has been appended behind the directory yet — a first writer with an empty stream —
+                        // the entry describes the empty range right behind it)
+                        let nothing_yet = buf.len() == dir_end;
+                        let lo = if nothing_yet { dir_end as u64 } else { r.range(dir_end as u64, buf.len() as u64 - 1) };
                         // (an entry may describe an empty stream: it still has to reach the destination)
-                        let sz = if r.chance(1, 6) { 0 } else { r.range(1, buf.len() as u64 - lo) };
+                        let sz = if nothing_yet || r.chance(1, 6) { 0 } else { r.range(1, buf.len() as u64 - lo) };
                         let d = md::MINIDUMP_DIRECTORY {
                             stream_type: r.range(1, 0xffff) as u32,
                             location: md::MINIDUMP_LOCATION_DESCRIPTOR { data_size: sz as u32, rva: lo as u32 },
